@@ -488,13 +488,20 @@ class HydrodynamicsTemplateModel:
             vpSignChangeWp = (self.mu*(1-vm**2*(1-self.nu))-np.sqrt(sqrtDisc))/(
                 2*vm*self.nu*(self.mu-1))
             if not np.isnan(vpSignChangeWp):
-                if vpMin < vpSignChangeWp < vpMax:
-                    # Keep the side of the sign change on which wp is positive
-                    alMax = (
-                        (vpMax / vm - 1.0) * (vpMax * vm / self.cb2 - 1.0)
-                        / (1 - vpMax**2) / 3.0
+                # The sign change can coincide with vpMax up to rounding (it is at
+                # vp = vm when mu = nu, e.g. in the bag model), hence the 1e-10
+                if vpMin < vpSignChangeWp <= vpMax + 1e-10:
+                    # Keep the side of the sign change on which wp is positive.
+                    # wp is probed in the middle of the upper side, where it is finite.
+                    vpAbove = 0.5 * (vpSignChangeWp + vpMax)
+                    alAbove = (
+                        (vpAbove / vm - 1.0) * (vpAbove * vm / self.cb2 - 1.0)
+                        / (1 - vpAbove**2) / 3.0
                     )
-                    if self.wFromAlpha(alMax) > 0:
+                    if (
+                        vpMax - vpSignChangeWp > 1e-8
+                        and self.wFromAlpha(alAbove) > 0
+                    ):
                         vpMin = vpSignChangeWp+1e-10
                     else:
                         vpMax = vpSignChangeWp-1e-10
